@@ -89,6 +89,8 @@ structure Screen where
   cursorX : Int := 0
   cursorY : Int := 0
   pointerClient : Option Nat := none
+  extScreens : Option Nat := none -- application's screen-list hook: n screens (none = library default: one screen)
+  extFail : Option Nat := none    -- … failing from this index on
   deriving Repr
 
 structure Conn where
@@ -114,6 +116,7 @@ structure Conn where
   expectHs : List HsItem := []
   preds : List Pred := []         -- predictions for FramebufferUpdates not yet seen (oldest first)
   buf : Bytes := []
+  owedExtDS : Bool := false       -- a non-incremental request of an ExtDesktopSize client is answered by that rectangle first
   mute : Bool := false            -- peer closed / stream already reported broken: further bytes are not judged
   deriving Repr
 
@@ -261,6 +264,17 @@ def pseudoPats (s : Screen) (c : Conn) (f : PseudoFlags) : List RPat :=
   (if f.supMsgs then [RPat.pseudo rfbEncodingSupportedMessages] else []) ++
   (if f.supEncs then [RPat.pseudo rfbEncodingSupportedEncodings] else []) ++
   (if f.identity then [RPat.pseudo rfbEncodingServerIdentity] else [])
+
+/-- payload of the ExtDesktopSize rectangle as rfbSendExtDesktopSize must build it from what the
+application's hooks report: number of screens, 3 padding bytes, then id, x, y, width, height, flags of
+every screen, all big-endian -/
+def extDesktopPayload (s : Screen) (view : Nat × Nat) : Bytes :=
+  match s.extScreens with
+  | none => [1, 0, 0, 0] ++ be32 1 ++ be16 0 ++ be16 0 ++ be16 view.1 ++ be16 view.2 ++ be32 0
+  | some n =>
+    [UInt8.ofNat n, 0, 0, 0] ++
+      (List.range n).flatMap fun i =>
+        be32 (i + 1) ++ be16 (3 * i) ++ be16 0 ++ be16 view.1 ++ be16 view.2 ++ be32 0
 
 /-- region rectangle as the client sees it (rfbScaledCorrection is the identity for unscaled clients) -/
 def viewGeo (s : Screen) (c : Conn) (g : Geo) : Geo :=
